@@ -192,6 +192,9 @@ WStop == /\ E.ev = "w_stop" /\ stopping' = E.tms /\ Ok       \* (stopping = -1: 
          /\ UNCHANGED <<filt, rr, x, nmsg, hdr, toReport, toWriter, cur, pend, cbQ, wireQ, pser, issued, written, outstanding, matched, expectRet, returned, activeCb>>
 \* C09: the harness kept every *Message it was handed and compares it, after later traffic and after the
 \* connection closed, with the snapshot taken at delivery (body, raw frame, id, phone, serial, package numbers)
+\* an observation the driver made at a point where the specification fixes the outcome (named by E.what), e.g. C04: the frames
+\* whose closing delimiter has arrived are answered without waiting for the rest of the stream
+Observed == /\ E.ev = "assert" /\ bad' = Flag(E.ok, E.what) /\ diverged' = diverged /\ Same
 Recheck == /\ E.ev = "recheck" /\ bad' = Flag(E.same, "DeliveredMessageChanged_" \o E.field) /\ diverged' = diverged /\ Same
 \* the harness waited for quiescence: nothing may be left anywhere
 End == /\ E.ev = "end"
@@ -206,11 +209,11 @@ End == /\ E.ev = "end"
           IN bad' = Flag(what = "ok", what) /\ diverged' = (diverged \/ what # "ok") /\ Same
 \* events the specification does not constrain here (registry, teardown, timers: Trace_Registry / C13)
 Other == /\ E.ev \notin {"reset", "send", "readcb", "unsupported", "w_msg", "reply_begin", "writecb", "recv",
-                         "cmd_call", "cmd_written", "resp_match", "w_complete", "cmd_ret", "end", "w_stop", "recheck", "tick", "w_reissue"}
+                         "cmd_call", "cmd_written", "resp_match", "w_complete", "cmd_ret", "end", "w_stop", "recheck", "tick", "w_reissue", "assert"}
          /\ Ok /\ Same
 
 Step == Reset \/ TickEv \/ WReissue \/ Send \/ ReadCb \/ WMsg \/ ReplyBegin \/ WriteCb \/ Recv \/ CmdCall \/ CmdWritten \/ RespMatch \/ WComplete
-        \/ CmdRet \/ End \/ WStop \/ Recheck \/ Other
+        \/ CmdRet \/ End \/ WStop \/ Recheck \/ Observed \/ Other
 Next == l <= Len(Trace) /\ l' = l + 1 /\ Step
 Done == l = Len(Trace) + 1
 Report == Done => CSVWrite("%1$s", <<ToJson([bad |-> bad, n |-> Len(Trace)])>>, IOEnv.VERIF_OUT)
